@@ -112,9 +112,12 @@ def gen_default(r, typ, allow_code=True):
         return ("val", r.choice(STRS))
     if typ is None:
         return ("val", r.choice([3, -2, 0, 0.25, True, False, "word", None, -1.5]))
-    if typ.startswith("Literal["):
-        opts = ast.literal_eval(typ[len("Literal") :])
+    inner = typ[len("Optional[") : -1] if typ.startswith("Optional[") and typ.endswith("]") else typ
+    if inner.startswith("Literal["):
+        opts = ast.literal_eval(inner[len("Literal") :])
         return ("val", r.choice(opts if isinstance(opts, list) else [opts]))
+    if inner.startswith("Union[") and "str" in inner and r.random() < 0.4:
+        return ("val", r.choice(STRS))  # a string under a union that admits one
     if allow_code:
         return ("val", r.choice(CODES + [None]))
     return ("absent",)
